@@ -257,7 +257,7 @@ pub fn run(tier: Tier, seed: u64, known: &KnownFindings) -> CheckReport {
         batch: "programs-x-faults",
         base_seed: seed,
         tier,
-        runs: tier.pick(2_500, 200_000),
+        runs: tier.pick(50_000, 1_000_000),
         threads: threads(),
         known,
         samples: 2,
